@@ -49,6 +49,10 @@ type c08Scenario struct {
 	// Immediate: the node sends the events directly behind the success response of the re-request (a backfill from disk
 	// follows the response in the same flush), not after the client's OpenStream has returned
 	Immediate bool `json:"immediate,omitempty"`
+	// MidFailover (with Mid): between the session's start and the end of its stream the vBucket fails over: the node's
+	// failover log gains the entry (0xB001, MidSeq) on top, and the rollback point R is judged against THAT log
+	MidFailover bool   `json:"mid_failover,omitempty"`
+	MidSeq      uint64 `json:"mid_seq,omitempty"`
 }
 
 func c08Exec(sc c08Scenario) (detail string, labels map[string]bool) {
@@ -118,13 +122,14 @@ func c08Exec(sc c08Scenario) (detail string, labels map[string]bool) {
 	for _, id := range sc.Colls {
 		colls[id] = fmt.Sprintf("c%d", id)
 	}
-	// expected target branch: the newest failover entry whose start seqno is <= R
-	var wantUUID uint64
-	for _, l := range sc.Log { // newest first
-		if l[1] <= sc.R {
-			wantUUID = l[0]
-			break
+	// expected target branch: the newest failover entry whose start seqno is <= R (in the log the node has when it answers)
+	targetUUID := func() uint64 {
+		for _, l := range sc.Log { // newest first
+			if l[1] <= sc.R {
+				return l[0]
+			}
 		}
+		return 0
 	}
 	wantEnd := ^uint64(0)
 	if sc.Finite {
@@ -161,7 +166,7 @@ func c08Exec(sc c08Scenario) (detail string, labels map[string]bool) {
 		if r2.SnapStart != sc.R || r2.SnapEnd != sc.R {
 			return fmt.Sprintf("re-request snapshot [%d,%d], want [%d,%d]", r2.SnapStart, r2.SnapEnd, sc.R, sc.R)
 		}
-		if r2.UUID != wantUUID {
+		if wantUUID := targetUUID(); r2.UUID != wantUUID {
 			return fmt.Sprintf("re-request on vbuuid %d, the history branch containing %d is %d (log %v)", r2.UUID, sc.R, wantUUID, sc.Log)
 		}
 		if r2.End != r1.End || r1.End != wantEnd {
@@ -233,6 +238,19 @@ func c08Exec(sc c08Scenario) (detail string, labels map[string]bool) {
 				}
 			}
 			time.Sleep(15 * time.Millisecond)
+		}
+		if sc.MidFailover {
+			sc.Log = append([][2]uint64{{0xB001, sc.MidSeq}}, sc.Log...)
+			c.Lock()
+			c.Failover[vb] = append([]simnode.FailoverEntry{{UUID: 0xB001, Seq: sc.MidSeq}}, fl...)
+			if sc.Mitig {
+				c.Persist[[2]int{int(vb), 0}] = [2]uint64{0xB001, 1 << 40}
+			}
+			c.Unlock()
+			labels["failover_between_session_start_and_rollback"] = true
+			if sc.MidSeq <= sc.R {
+				labels["rollback_point_on_the_branch_created_mid_session"] = true
+			}
 		}
 		s0.End(memd.StreamEndStateChanged)
 		deadline := time.Now().Add(10 * time.Second)
@@ -447,6 +465,13 @@ func c08Gen(t *rapid.T) c08Scenario {
 	sc.Immediate = rapid.IntRange(0, 2).Draw(t, "immediate") == 0
 	sc.Mid = rapid.IntRange(0, 3).Draw(t, "mid") == 0
 	sc.Mitig = rapid.IntRange(0, 2).Draw(t, "mitig") == 0
+	if sc.Mid && rapid.Bool().Draw(t, "midfailover") {
+		sc.MidFailover = true
+		sc.MidSeq = top
+		if d := rapid.Uint64Range(0, 2).Draw(t, "midback"); sc.R >= top+d {
+			sc.MidSeq = sc.R - d
+		}
+	}
 	return sc
 }
 
